@@ -35,9 +35,19 @@ def gen_program(seed: int, prop: str, run: int, profile: dict):
         c["max_amp"] = min(c["max_amp"] or 15.0, 15.0)
         c["max_abs_detuning"] = min(c["max_abs_detuning"] or 40.0, 40.0)
         c["min_duration"] = min(c["min_duration"], 16)
+    for d in dev.get("dmm", ()):
+        # same precondition for the DMM: without a per-atom bottom the generator
+        # would draw detunings down to the total bottom (thousands of rad/us),
+        # which the ODE solver integrates with percent-level norm drift
+        d["bottom_detuning"] = max(d["bottom_detuning"] if d["bottom_detuning"] is not None else -125.66370614359172, -125.66370614359172)
+        if d.get("total_bottom_detuning") is not None and d["total_bottom_detuning"] > d["bottom_detuning"]:
+            d["bottom_detuning"] = d["total_bottom_detuning"]
     dev["max_sequence_duration"] = None
     reg = W.gen_register(wr, n_min=1, n_max=profile.get("n_max", 3), dim3_p=0.3)
     world = {"device": dev, "register": reg}
+    if profile.get("vary_sampling_rate"):
+        # per-run tuning knob: the emulator keeps int(rate * T) of the T samples
+        world["sampling_rate"] = G.pick(wr, [1.0, 1.0, 1.0, 1.0, 1.0, 0.5, 0.5, 0.3, 0.12])
     prof = A.make_profile(
         w_fault=0.0,
         w_observer=0.0,
@@ -365,6 +375,11 @@ def emu_issue(ctx: EmuCtx, op: dict):
             else:
                 raise ValueError(k)
         except Exception as e:  # noqa: BLE001
+            if k in ("e_set_config", "e_add_config"):
+                # a refused reconfiguration may have been applied in part: what
+                # the Hamiltonian should be is unknown until the next
+                # successful set_config / reset_config
+                ctx.noise_free = False
             return type(e).__name__, str(e)[:200]
     return None, None
 
@@ -391,7 +406,11 @@ def run_emu(prop: str, seed: int, run: int, profile: dict, checker_factory, doc=
         try:
             with warnings.catch_warnings():
                 warnings.simplefilter("ignore")
-                ctx.emu = QutipEmulator.from_sequence(ctx.seq, sampling_rate=profile.get("sampling_rate", 1.0))
+                rate = world.get("sampling_rate", profile.get("sampling_rate", 1.0))
+                if int(max(c.end for c in ctx.snap.channels.values()) * rate) < 4:
+                    rate = 1.0  # fewer than 4 samples is a documented refusal
+                ctx.sampling_rate = rate
+                ctx.emu = QutipEmulator.from_sequence(ctx.seq, sampling_rate=rate)
         except Exception as e:  # noqa: BLE001
             stats[f"emulator_refused/{type(e).__name__}"] += 1
             chk.on_refused(ctx, e)
@@ -460,7 +479,23 @@ class C05(Checker):
                     ts.update({b - 1, b, b + 1})
         rng = random.Random(T * 7919 + len(ts))
         ts.update(rng.randrange(T + 1) for _ in range(8))
-        return sorted(t for t in ts if 0 <= t <= T)
+        ts = sorted(t for t in ts if 0 <= t <= T)
+        if getattr(ctx, "sampling_rate", 1.0) < 1.0:
+            # the statement speaks of the SAMPLED times: move every candidate to the
+            # nearest instants the emulator kept (between them it interpolates)
+            import bisect
+
+            kept = sorted({int(round(float(x) * 1000)) for x in ctx.emu.sampling_times})
+            out = set()
+            for t in ts:
+                k = bisect.bisect_left(kept, t)
+                for j in (k - 1, k, k + 1):
+                    if 0 <= j < len(kept):
+                        out.add(kept[j])
+            ctx.stats["instants_on_reduced_grid"] += len(out)
+            ctx.probe("reduced_sampling_rate")
+            return sorted(out)
+        return ts
 
     def check(self, ctx, step, when):
         from .oracles.c06 import render_atoms
@@ -545,21 +580,63 @@ class C11H(Checker):
         from pulser_simulation import QutipEmulator
 
         k = op["op"]
-        if op.get("cfg", {}).get("with_leakage"):
-            # the basis dimension changes with leakage: initial states set
-            # before / after are not comparable
-            self.tainted = True
-        if err[0] is not None or getattr(self, "tainted", False):
+        if k in ("e_set_config", "e_add_config") and err[0] is not None:
+            # a refused reconfiguration may have been applied in part (the
+            # statement says nothing about that): nothing is compared until the
+            # configuration is set or reset successfully again
+            self.unknown_cfg = True
+            if op.get("cfg", {}).get("with_leakage") or getattr(self, "leak", False):
+                self.leak = None  # the dimension may or may not have changed
+            ctx.stats["history_unknown_after_refused_config"] += 1
+            return
+        if k in ("e_set_config", "e_reset_config") and err[0] is None:
+            self.unknown_cfg = False
+            self.added = False
+            leak = bool(op.get("cfg", {}).get("with_leakage"))
+            before = getattr(self, "leak", False)
+            if before is None:
+                # unknown whether the dimension changed: take the initial state
+                # the emulator reports (weaker, sound)
+                self.init = ctx.emu.initial_state
+            elif leak != before:
+                # the basis dimension changes: the emulator documents that it
+                # falls back to 'all-ground'
+                self.init = None
+                ctx.probe("history_dimension_change")
+            self.leak = leak
             return
         if k == "e_set_evaluation_times":
-            self.eval_times = op["value"]
-        elif k == "e_set_initial_state":
-            self.init = ctx.emu.initial_state
-        elif k == "e_add_config":
-            self.added = True
-        elif k in ("e_set_config", "e_reset_config"):
-            self.added = False
+            if err[0] is None:
+                self.eval_times = op["value"]
+            return
+        if k == "e_set_initial_state":
+            if err[0] is None:
+                self.init = ctx.emu.initial_state
+            return
+        if k == "e_add_config":
+            if err[0] is None:
+                self.added = True
+            return
+        if getattr(self, "unknown_cfg", False):
+            return
         if k != "e_run" or self.added:
+            return
+        spec = ctx.cfg_spec
+        if err[0] is not None:
+            # the reconfigured emulator refuses to run: a fresh one given the
+            # same configuration must refuse too
+            try:
+                with warnings.catch_warnings():
+                    warnings.simplefilter("ignore")
+                    fresh = QutipEmulator.from_sequence(ctx.seq, sampling_rate=ctx.profile.get("sampling_rate", 1.0), config=build_simconfig(spec) if spec["noise"] else None, evaluation_times=self.eval_times)
+                    if self.init is not None:
+                        fresh.set_initial_state(self.init)
+                    np.random.seed(op["np_seed"])
+                    fresh.run()
+            except Exception:  # noqa: BLE001
+                ctx.stats["history_run_refused_by_both"] += 1
+                return
+            ctx.viol("C11/history-run-raised", i, f"after the reconfiguration history run() raised {err[0]}: {str(err[1])[:120]} while a fresh emulator with the same configuration {spec} runs")
             return
         spec = ctx.cfg_spec
         if not hamiltonian_noise_free(spec):
